@@ -41,6 +41,7 @@ CONSTANTS N = %(n)d
  Fam = "%(fam)s"
  Diag = %(diag)s
  Full = %(full)s
+ Half = %(half)s
  Lo = %(lo)d
  Hi = %(hi)d
  Step = %(step)d
@@ -227,6 +228,23 @@ def replay(plan):
     return ops
 
 
+def compress(ops):
+    """Re-encode a history observed only after its last call as one HTNOrder!Build macro step."""
+    k = 0
+    while k < len(ops) and ops[k]["op"] == "task":
+        k += 1
+    rest = ops[k:]
+    if any(o["obs"] for o in ops[:-1]) or any(o["op"] not in ("prec", "cons", "look") for o in rest):
+        return ops
+    calls = []
+    for o in rest:
+        if o["op"] == "prec":
+            calls.append({"a": o["a"], "b": o["b"], "v": o["v"]})
+        elif o["op"] == "cons":
+            calls.append({"a": 0, "b": 0, "c": o["c"]})
+    return [{"op": "build", "ts": [o["t"] for o in ops[:k]], "calls": calls, "obs": ops[-1]["obs"]}]
+
+
 def guarded(plan):
     """replay under a time limit; returns ("ok", ops) | ("timeout", None) | ("raise", repr)."""
     try:
@@ -250,10 +268,13 @@ def _run_batch(batch):
             rng = random.Random("%d|%d" % (salt, tid))
             small = x["n"] <= 3 or x["fam"] == "devs"
             cls = ["tn", "m"] if small else [rng.choice(["tn", "m"])]
-            plan = {"cls": cls, "n": x["n"], "case": x, "steps": plan_of_case(x, rng, small)}
+            every = small and (x["fam"] == "rel" or rng.random() < 0.25)
+            plan = {"cls": cls, "n": x["n"], "case": x, "steps": plan_of_case(x, rng, every)}
         else:
             plan = x
         status, r = guarded(plan)
+        if status == "ok" and kind == "case" and not small:
+            r = compress(r)
         out.append((tid, status, r, None if status == "ok" else plan))
     return out
 
@@ -371,7 +392,7 @@ def enumerate_cases(ctx, jobs, parallel):
         i, j = job
         d = ctx.sub("enum-%d" % i)
         out = os.path.join(d, "cases.ndjson")
-        cfg = dict(diag="FALSE", full="FALSE", lo=0, hi=0, step=1, rounds=1)
+        cfg = dict(diag="FALSE", full="FALSE", half="FALSE", lo=0, hi=0, step=1, rounds=1)
         cfg.update(j)
         res = tlc.run_tlc("HTNOrderEnum", ENUM_CFG % cfg, d, env={"OUT": out}, workers=1, timeout=3000, heap="3g")
         if res.error:
@@ -403,9 +424,14 @@ def judge(ctx, label, traces, n, workers):
 
 def other_feature(trace):
     """Input feature for signatures: the shape of the first non-precedence temporal constraint."""
+    cs = []
     for o in trace["ops"]:
-        if o["op"] == "cons" and o["c"]["op"] != "nontemp":
-            c = o["c"]
+        if o["op"] == "cons":
+            cs.append(o["c"])
+        elif o["op"] == "build":
+            cs += [x["c"] for x in o["calls"] if x["a"] == 0]
+    for c in cs:
+        if c["op"] != "nontemp":
 
             def side(t):
                 s = t["tk"]
@@ -454,7 +480,7 @@ def bind(ctx, label, kind, salt, items, n, pool, workers):
     if not traces:
         return
     ctx.cov["evaluations"] += sum(len(o["obs"]) for t in traces for o in t["ops"])
-    ctx.cov["distinct_nontrivial"] += sum(1 for t in traces if any(o["op"] in ("prec", "cons") for o in t["ops"]))
+    ctx.cov["distinct_nontrivial"] += sum(1 for t in traces if any(o["op"] in ("prec", "cons") or o.get("calls") for o in t["ops"]))
     res = judge(ctx, label, traces, n, workers)
     ctx.add_tlc("trace-" + label, res)
     ctx.cov["traces_validated_against_impl"] += len(traces)
@@ -535,7 +561,7 @@ def run(ctx):
         dict(n=0, fam="rel", diag="TRUE", full="TRUE"),
         dict(n=1, fam="rel", diag="TRUE", full="TRUE", hi=1),
         dict(n=2, fam="rel", diag="TRUE", full="TRUE", hi=15),
-        dict(n=3, fam="rel", diag="TRUE", full="TRUE", hi=511),
+        dict(n=3, fam="rel", diag="TRUE", half="TRUE", hi=511),
         dict(n=2, fam="mixed", full="TRUE", hi=3),
         dict(n=3, fam="mixed", full="TRUE", hi=63),
         dict(n=6, fam="devs"),
@@ -569,14 +595,20 @@ def run(ctx):
         for w0 in range(0, len(big_jobs), par):
             wave = big_jobs[w0 : w0 + par]
             groups = enumerate_cases(ctx, wave, par)
+            byn = {}
             for k, (j, g) in enumerate(zip(wave, groups)):
-                items = []
                 for case in g:
                     ncases += 1
-                    items.append((ncases, case))
+                    byn.setdefault(j["n"], []).append((ncases, case))
                 groups[k] = None
-                label = "enumerated networks, %d subtasks, %s %d..%d" % (j["n"], j["fam"], j.get("lo", 0), j.get("hi", 0))
-                bind(ctx, label, "case", salt, items, j["n"], pool, W)
+            for n in sorted(byn):
+                fams = sorted({j["fam"] for j in wave if j["n"] == n})
+                CH = 160000
+                for k in range(0, len(byn[n]), CH):
+                    part = byn[n][k : k + CH]
+                    label = "enumerated networks, %d subtasks (%s), cases %d..%d" % (n, "/".join(fams), part[0][0], part[-1][0])
+                    bind(ctx, label, "case", salt, part, n, pool, W)
+                byn[n] = None
         ctx.cov["tlc_runs"].append({"label": "HTNOrderEnum", "runs": len(jobs), "cases": ncases})
         # ---- T3: seeded incremental histories ---------------------------------------------------
         nr = 400 if q else 6000
